@@ -163,18 +163,20 @@ def check_interner_ops(chk, prog, cfg, rule="R12.1"):
         rt = b.return_term()
         chk.expect(self_field(b, rt, "vec") and not [c for c in mir.calls_in(rt) if last(c[1]["name"]) not in ("deref", "as_slice")],
                    rule, "Interner::elements", b.where(), path_str(rt), cfg)
-    b = anchor(chk, prog, "interner::Interner::new")
-    if b is not None:
-        rt = b.return_term()
-        ok = is_adt_agg(rt, INT) and is_call(agg_field(rt, "map"), BT + "::new", nargs=0) and is_call(agg_field(rt, "vec"), VEC + "::new", nargs=0)
-        chk.expect(ok, rule, "Interner::new", b.where(), path_str(rt), cfg)
-    cands = [p_ for p_ in prog.fns if mir.strip_generics(p_) == "<scale_info::interner::Interner as core::default::Default>::default"]
-    if len(cands) == 1:
+    from ..lib import symrun, absint as _ai
+    for nm_, key_ in (("scale_info::interner::Interner::new", "Interner::new"), ("<scale_info::interner::Interner as core::default::Default>::default", "Interner::default=new")):
+        cands = [p_ for p_ in prog.fns if mir.strip_generics(p_) == nm_]
+        if len(cands) != 1:
+            chk.anchor_missing(nm_)
+            continue
         bd = prog.body(cands[0])
-        rt = bd.return_term()
-        chk.expect(is_call(rt, "scale_info::interner::Interner::new", nargs=0), rule, "Interner::default=new", bd.where(), path_str(rt), cfg)
-    else:
-        chk.anchor_missing("Default for Interner")
+        try:
+            v = symrun.Run(prog).run(cands[0], [])
+            ok = symrun.is_struct(v, INT) and symrun.field(v, "map") == ("map", ()) and symrun.field(v, "vec") == symrun.EMPTY_VEC
+            detail = "creates %s" % symrun.show(v)
+        except _ai.Unrecognised as e:
+            ok, detail = False, "cannot interpret: %s" % e
+        chk.expect(ok, rule, key_, bd.where(), detail + " (required: empty map and empty vec, whichever of new / default holds the literal)", cfg)
     imps = prog.impl_for("core::default::Default", lambda t: t["k"] == "adt" and t["d"] == PRB)
     if imps:
         e = (imps[0]["expn"] or [{}])[0]
@@ -182,10 +184,13 @@ def check_interner_ops(chk, prog, cfg, rule="R12.1"):
                    "Default for the builder is the built-in derive (field-wise default): %s" % imps[0]["automatically_derived"], cfg)
     b = anchor(chk, prog, "interner::Symbol::into_untracked")
     if b is not None:
-        rt = b.return_term()
-        idt = agg_field(rt, "id") if is_adt_agg(rt, USYM) else None
-        ap = paths.access_path(b, idt) if idt else None
-        chk.expect(ap is not None and ap[0] == arg(b, 1) and ap[1] == ".id", rule, "Symbol::into_untracked", b.where(), path_str(rt), cfg)
+        try:
+            v = symrun.Run(prog).run(b.path, [symrun.struct(prog, SYM, "self")])
+            ok = symrun.is_struct(v, USYM) and symrun.field(v, "id") == _ai.Sym("self.id")
+            detail = "into_untracked(self) = %s" % symrun.show(v)
+        except _ai.Unrecognised as e:
+            ok, detail = False, "cannot interpret: %s" % e
+        chk.expect(ok, rule, "Symbol::into_untracked", b.where(), detail, cfg)
 
 
 def check_builder_ops(chk, prog, cfg, rule="R12.2"):
@@ -322,8 +327,8 @@ ALLOWED_MUT = {
     (PRB, "types"): {("call", "scale_info::portable::PortableRegistryBuilder::register_type", "scale_info::interner::Interner::intern_or_get")},
 }
 ALLOWED_CTOR = {
-    REG: {"scale_info::registry::Registry::new"},
-    INT: {"scale_info::interner::Interner::new"},
+    REG: {"scale_info::registry::Registry::new", "<scale_info::registry::Registry as core::default::Default>::default"},
+    INT: {"scale_info::interner::Interner::new", "<scale_info::interner::Interner as core::default::Default>::default"},
 }
 
 
